@@ -94,8 +94,7 @@ Fixpoint content_find (fuel : nat) (v : str) (from : nat) : option nat :=       
           | None => None
           | Some (_, p1) =>
               match current v p1 with
-              | Some 61 => Some p1
-              | Some _ => content_find k v p1
+              | Some c => if c =? 61 then Some p1 else content_find k v p1
               | None => None
               end
           end
